@@ -114,6 +114,9 @@ func c13Prop(st *CaseStats, fam int) func(t *rapid.T) {
 		nSteps := rapid.IntRange(3, 40).Draw(t, "nSteps")
 		for s := 0; s < nSteps; s++ {
 			op := rapid.IntRange(0, 10).Draw(t, "op")
+			if fam == FamWide && rapid.Bool().Draw(t, "dvHeavy") {
+				op = 9 // the wide variant is mostly about one doc-value reader crossing chunk boundaries
+			}
 			switch {
 			case op <= 1: // postings list lookup, maybe reusing an earlier list
 				si := rapid.IntRange(0, nSeg-1).Draw(t, "seg")
@@ -367,6 +370,10 @@ func c13Prop(st *CaseStats, fam int) func(t *rapid.T) {
 				if len(dvrs) == 0 || rapid.IntRange(0, 3).Draw(t, "newDV") == 0 {
 					si := rapid.IntRange(0, nSeg-1).Draw(t, "seg")
 					fields := rapid.SliceOfN(rapid.SampledFrom(ProbeFields), 0, 4).Draw(t, "dvFields")
+					if fam == FamWide {
+						si = 0
+						fields = append(fields, "a")
+					}
 					r, err := cases[si].Seg.DocumentValueReader(fields)
 					if err != nil {
 						fail("DocumentValueReader: %v", err)
